@@ -4,6 +4,7 @@ import (
 	"fmt"
 	"go/token"
 	"go/types"
+	"sort"
 	"strings"
 
 	"golang.org/x/tools/go/ssa"
@@ -153,103 +154,7 @@ func C11(p *an.Prog, r *an.Report) {
 
 	// M3
 	if vtm != nil {
-		maxv, ok := p.ConstInt("data", "MAX_MAPPING_DATA_SIZE")
-		r.Check(ok && maxv == 65535, "C11.M3", "data.MAX_MAPPING_DATA_SIZE", "-", "maximum mapping payload is 65,535 bytes", fmt.Sprint(maxv))
-		var bad []string
-		found := false
-		for _, b := range vtm.Blocks {
-			iff, ok := b.Instrs[len(b.Instrs)-1].(*ssa.If)
-			if !ok {
-				continue
-			}
-			bo, ok := iff.Cond.(*ssa.BinOp)
-			if !ok || bo.Op != token.GTR {
-				continue
-			}
-			c, ok := bo.Y.(*ssa.Const)
-			if !ok || c.Value == nil || c.Int64() != 65535 {
-				continue
-			}
-			found = true
-			// true edge must reach only error returns
-			for _, ret := range flow.OkReturns(vtm) {
-				if an.ReachAvoiding(b.Succs[0], ret.Block(), nil, nil) && !an.EdgeDominates(b, b.Succs[1], ret.Block()) {
-					bad = append(bad, "size > 65535 can still reach the success return at "+p.Pos(ret.Pos()))
-				}
-				if !b.Dominates(ret.Block()) {
-					bad = append(bad, "the size guard does not dominate the success return")
-				}
-			}
-			// the guarded value is the one encoded as the size field
-			enc := findCalls(vtm, func(ci ssa.CallInstruction) bool {
-				f := ci.Common().StaticCallee()
-				return f != nil && f.Name() == "NewIntegerFromInt" && an.InLib(f)
-			})
-			okEnc := false
-			for _, e := range enc {
-				if e.Common().Args[0] == bo.X {
-					if w, ok := e.Common().Args[1].(*ssa.Const); ok && w.Value != nil && w.Int64() == 2 {
-						okEnc = true
-					}
-				}
-			}
-			if !okEnc {
-				bad = append(bad, "the guarded size is not the value encoded as the 2-byte size field")
-			}
-		}
-		if !found {
-			bad = append(bad, "no `size > 65535` rejection found")
-		}
-		// the guarded size is accumulated from the encoded lengths: every loop-carried addition
-		// adds len(<string>) (the bytes the serializer will emit), not a decoded/declared length
-		nAcc := 0
-		for _, blk := range vtm.Blocks {
-			for _, in := range blk.Instrs {
-				add, ok := in.(*ssa.BinOp)
-				if !ok || add.Op != token.ADD {
-					continue
-				}
-				var acc *ssa.Phi
-				var term ssa.Value
-				if ph, ok := add.X.(*ssa.Phi); ok {
-					acc, term = ph, add.Y
-				} else if ph, ok := add.Y.(*ssa.Phi); ok {
-					acc, term = ph, add.X
-				}
-				if acc == nil {
-					continue
-				}
-				feeds := false
-				for _, e := range acc.Edges {
-					if e == ssa.Value(add) {
-						feeds = true
-					}
-					// nested loops: the inner accumulator feeds the outer phi
-					if ph2, ok := e.(*ssa.Phi); ok {
-						for _, e2 := range ph2.Edges {
-							if e2 == ssa.Value(add) {
-								feeds = true
-							}
-						}
-					}
-				}
-				if !feeds || !isIntegerType(add.Type()) {
-					continue
-				}
-				if c, isC := term.(*ssa.Const); isC && c.Value != nil {
-					continue // loop counters
-				}
-				nAcc++
-				call, isCall := term.(*ssa.Call)
-				if !isCall || !isBuiltin(call, "len") {
-					bad = append(bad, "the size accumulated at "+p.Pos(add.Pos())+" is not len() of the encoded string (a declared or decoded length under-/over-counts the bytes that will be written)")
-				}
-			}
-		}
-		if nAcc == 0 {
-			bad = append(bad, "no loop-carried size accumulation found in ValuesToMapping")
-		}
-		r.Check(len(bad) == 0, "C11.M3", "ValuesToMapping/size-limit", p.FnPos(vtm), "sizes above 65,535 are rejected and the accepted size is what gets encoded", bad...)
+		c11SizeLimit(p, r, vtm, "C11.M3")
 	}
 
 	// M4 / M6
@@ -297,6 +202,110 @@ func C11(p *an.Prog, r *an.Report) {
 
 	// M5
 	c11Threshold(p, r)
+}
+
+// c11SizeLimit (M3; also the justification of C14's reviewed uint16(len(payload)) narrowing):
+// ValuesToMapping rejects computed sizes above 65,535, encodes that same size, and accumulates it
+// from len() of the encoded strings.
+func c11SizeLimit(p *an.Prog, r *an.Report, vtm *ssa.Function, rule string) {
+	flow := an.NewFlow(p)
+	maxv, ok := p.ConstInt("data", "MAX_MAPPING_DATA_SIZE")
+	r.Check(ok && maxv == 65535, rule, "data.MAX_MAPPING_DATA_SIZE", "-", "maximum mapping payload is 65,535 bytes", fmt.Sprint(maxv))
+	var bad []string
+	found := false
+	for _, b := range vtm.Blocks {
+		iff, ok := b.Instrs[len(b.Instrs)-1].(*ssa.If)
+		if !ok {
+			continue
+		}
+		bo, ok := iff.Cond.(*ssa.BinOp)
+		if !ok || bo.Op != token.GTR {
+			continue
+		}
+		c, ok := bo.Y.(*ssa.Const)
+		if !ok || c.Value == nil || c.Int64() != 65535 {
+			continue
+		}
+		found = true
+		// true edge must reach only error returns
+		for _, ret := range flow.OkReturns(vtm) {
+			if an.ReachAvoiding(b.Succs[0], ret.Block(), nil, nil) && !an.EdgeDominates(b, b.Succs[1], ret.Block()) {
+				bad = append(bad, "size > 65535 can still reach the success return at "+p.Pos(ret.Pos()))
+			}
+			if !b.Dominates(ret.Block()) {
+				bad = append(bad, "the size guard does not dominate the success return")
+			}
+		}
+		// the guarded value is the one encoded as the size field
+		enc := findCalls(vtm, func(ci ssa.CallInstruction) bool {
+			f := ci.Common().StaticCallee()
+			return f != nil && f.Name() == "NewIntegerFromInt" && an.InLib(f)
+		})
+		okEnc := false
+		for _, e := range enc {
+			if e.Common().Args[0] == bo.X {
+				if w, ok := e.Common().Args[1].(*ssa.Const); ok && w.Value != nil && w.Int64() == 2 {
+					okEnc = true
+				}
+			}
+		}
+		if !okEnc {
+			bad = append(bad, "the guarded size is not the value encoded as the 2-byte size field")
+		}
+	}
+	if !found {
+		bad = append(bad, "no `size > 65535` rejection found")
+	}
+	// the guarded size is accumulated from the encoded lengths: every loop-carried addition
+	// adds len(<string>) (the bytes the serializer will emit), not a decoded/declared length
+	nAcc := 0
+	for _, blk := range vtm.Blocks {
+		for _, in := range blk.Instrs {
+			add, ok := in.(*ssa.BinOp)
+			if !ok || add.Op != token.ADD {
+				continue
+			}
+			var acc *ssa.Phi
+			var term ssa.Value
+			if ph, ok := add.X.(*ssa.Phi); ok {
+				acc, term = ph, add.Y
+			} else if ph, ok := add.Y.(*ssa.Phi); ok {
+				acc, term = ph, add.X
+			}
+			if acc == nil {
+				continue
+			}
+			feeds := false
+			for _, e := range acc.Edges {
+				if e == ssa.Value(add) {
+					feeds = true
+				}
+				// nested loops: the inner accumulator feeds the outer phi
+				if ph2, ok := e.(*ssa.Phi); ok {
+					for _, e2 := range ph2.Edges {
+						if e2 == ssa.Value(add) {
+							feeds = true
+						}
+					}
+				}
+			}
+			if !feeds || !isIntegerType(add.Type()) {
+				continue
+			}
+			if c, isC := term.(*ssa.Const); isC && c.Value != nil {
+				continue // loop counters
+			}
+			nAcc++
+			call, isCall := term.(*ssa.Call)
+			if !isCall || !isBuiltin(call, "len") {
+				bad = append(bad, "the size accumulated at "+p.Pos(add.Pos())+" is not len() of the encoded string (a declared or decoded length under-/over-counts the bytes that will be written)")
+			}
+		}
+	}
+	if nAcc == 0 {
+		bad = append(bad, "no loop-carried size accumulation found in ValuesToMapping")
+	}
+	r.Check(len(bad) == 0, rule, "ValuesToMapping/size-limit", p.FnPos(vtm), "sizes above 65,535 are rejected and the accepted size is what gets encoded", bad...)
 }
 
 // c11Comparator: less(i, j) = Data(values[i][0]) < Data(values[j][0]).
@@ -347,42 +356,143 @@ func c11Comparator(p *an.Prog, f *ssa.Function) []string {
 	return bad
 }
 
-// c11SizeField: result = append(append(_, size bytes...), payload...) with size = len(payload).
+// bufferParts: the byte sources that make up buffer v, in wire order. Two idioms are understood:
+// an append chain starting from an empty slice, and a buffer allocated at its final size and
+// filled by copy() calls in one block whose destination offsets are exactly the running sum of the
+// source lengths (so the parts are adjacent, in order, and fill the buffer).
+func bufferParts(b *an.Bounds, v ssa.Value, depth int) ([]ssa.Value, string) {
+	if depth > 8 {
+		return nil, "buffer construction too deep"
+	}
+	switch x := v.(type) {
+	case *ssa.Call:
+		if !isBuiltin(x, "append") || len(x.Call.Args) != 2 {
+			return nil, "result is not built by append or copy"
+		}
+		base, why := bufferParts(b, x.Call.Args[0], depth+1)
+		if why != "" {
+			return nil, why
+		}
+		return append(base, x.Call.Args[1]), ""
+	case *ssa.MakeSlice:
+		if c, ok := x.Len.(*ssa.Const); ok && c.Value != nil && c.Int64() == 0 {
+			return nil, "" // empty base of an append chain
+		}
+		if depth > 0 {
+			return nil, "bytes precede the size field (the append chain starts from a non-empty buffer)"
+		}
+		type wr struct {
+			off  an.Lin
+			src  ssa.Value
+			at   int
+			call *ssa.Call
+		}
+		var ws []wr
+		var blk *ssa.BasicBlock
+		add := func(c *ssa.Call, off an.Lin) string {
+			if blk != nil && c.Block() != blk {
+				return "the buffer is filled in several blocks"
+			}
+			blk = c.Block()
+			ws = append(ws, wr{off, c.Call.Args[1], an.InstrIndex(c), c})
+			return ""
+		}
+		for _, ref := range *x.Referrers() {
+			switch rr := ref.(type) {
+			case *ssa.Call:
+				if isBuiltin(rr, "copy") && rr.Call.Args[0] == ssa.Value(x) {
+					if why := add(rr, an.LinConst(0)); why != "" {
+						return nil, why
+					}
+					continue
+				}
+				if isBuiltin(rr, "len") || isBuiltin(rr, "cap") {
+					continue
+				}
+				return nil, "the buffer is passed to " + rr.Call.Value.Name()
+			case *ssa.Slice:
+				if rr.High != nil || rr.Max != nil {
+					return nil, "the buffer is written through a bounded window"
+				}
+				for _, r2 := range *rr.Referrers() {
+					c, ok := r2.(*ssa.Call)
+					if !ok || !isBuiltin(c, "copy") || c.Call.Args[0] != ssa.Value(rr) {
+						return nil, "a window of the buffer is used other than as a copy destination"
+					}
+					off := an.LinConst(0)
+					if rr.Low != nil {
+						off = b.LinOf(rr.Low)
+					}
+					if why := add(c, off); why != "" {
+						return nil, why
+					}
+				}
+			case *ssa.Return, *ssa.DebugRef:
+			default:
+				return nil, fmt.Sprintf("the buffer is used by %T", ref)
+			}
+		}
+		if len(ws) == 0 {
+			if c, ok := x.Len.(*ssa.Const); ok && c.Value != nil && c.Int64() == 0 {
+				return nil, ""
+			}
+			return nil, "bytes precede the first part (the buffer is allocated non-empty and never filled)"
+		}
+		sort.Slice(ws, func(i, j int) bool { return ws[i].at < ws[j].at })
+		sum := an.LinConst(0)
+		var parts []ssa.Value
+		for i, w := range ws {
+			// a running offset advanced by the result of an earlier copy: that copy moved
+			// len(src) bytes (that it is not cut short is the business of the no-truncation rule)
+			for _, prev := range ws[:i] {
+				w.off = w.off.Subst(b.LinOf(prev.call), b.LenOf(prev.src))
+			}
+			if !w.off.Equal(sum) {
+				return nil, fmt.Sprintf("a part is copied to offset %s where %s bytes precede it", w.off, sum)
+			}
+			sum = sum.Add(b.LenOf(w.src), 1)
+			parts = append(parts, w.src)
+		}
+		if !b.LinOf(x.Len).Equal(sum) {
+			return nil, fmt.Sprintf("the buffer has %s bytes but the parts copied into it have %s", b.LinOf(x.Len), sum)
+		}
+		return parts, ""
+	}
+	return nil, "result is not built by append or copy"
+}
+
+// c11SizeField: the result consists of exactly the size bytes followed by the payload, with
+// size = len(payload).
 func c11SizeField(p *an.Prog, r *an.Report, fn *ssa.Function) {
 	var bad []string
 	n := 0
+	b := an.NewBounds(p)
 	for _, ret := range an.Returns(fn) {
 		if an.IsNilConst(ret.Results[0]) {
 			continue
 		}
 		n++
-		outer, ok := ret.Results[0].(*ssa.Call)
-		if !ok || !isBuiltin(outer, "append") {
-			bad = append(bad, "result is not an append chain")
+		parts, why := bufferParts(b, ret.Results[0], 0)
+		if why != "" {
+			bad = append(bad, why)
 			continue
 		}
-		payload := outer.Call.Args[1]
-		inner, ok := outer.Call.Args[0].(*ssa.Call)
-		if !ok || !isBuiltin(inner, "append") {
+		if len(parts) < 2 {
 			bad = append(bad, "size bytes are not appended immediately before the payload")
 			continue
 		}
-		// inner.Args[1]: the size bytes; slice their origin for len(payload)
-		sl := &an.Slicer{P: p, Root: fn, Through: an.AllArgs, MaxDepth: 2, StopAt: func(c ssa.CallInstruction, f *ssa.Function) bool { return false }}
+		if len(parts) > 2 {
+			bad = append(bad, "bytes precede the size field")
+			continue
+		}
+		payload := parts[1]
 		lenOf := map[ssa.Value]bool{}
-		collectLenOperands(inner.Call.Args[1], lenOf, 0)
-		_ = sl
+		collectLenOperands(parts[0], lenOf, 0)
 		if !lenOf[payload] {
 			bad = append(bad, "the size field is not computed from len() of the payload that follows it")
 		}
 		if len(lenOf) != 1 {
 			bad = append(bad, fmt.Sprintf("size field depends on %d length operands", len(lenOf)))
-		}
-		// base of the inner append must be empty
-		if ms, ok := inner.Call.Args[0].(*ssa.MakeSlice); !ok {
-			bad = append(bad, "bytes precede the size field")
-		} else if c, ok := ms.Len.(*ssa.Const); !ok || c.Value == nil || c.Int64() != 0 {
-			bad = append(bad, "bytes precede the size field")
 		}
 	}
 	r.Check(n > 0 && len(bad) == 0, "C11.M2", "Mapping.Data/size-field", p.FnPos(fn), "the two-byte size field equals len(payload) of the payload appended right after it", bad...)
@@ -621,9 +731,42 @@ func minimalPairSize(p *an.Prog) (int64, []string) {
 			// variable-length parts contribute >= 0
 		}
 	}
+	if total == 0 {
+		// not an append chain (e.g. a buffer allocated up front): the smallest length the
+		// relational engine can show for the value returned on success
+		b := an.NewBounds(p)
+		// the same domain fact the append-chain form relies on: NewIntegerFromInt(_, k) yields a
+		// k-byte Integer
+		b.Axioms = func(b *an.Bounds, c *ssa.Call, prove func(an.Lin) bool) []an.Fact {
+			callee := c.Call.StaticCallee()
+			if callee == nil || callee.Name() != "NewIntegerFromInt" || !strings.HasSuffix(an.FnPkgPath(callee), "/data") || len(c.Call.Args) != 2 {
+				return nil
+			}
+			k, ok := c.Call.Args[1].(*ssa.Const)
+			if !ok || k.Value == nil {
+				return nil
+			}
+			ln := b.PointeeLenOfResult(c, 0)
+			why := "NewIntegerFromInt(_, k) yields k bytes"
+			return []an.Fact{{L: ln.Add(an.LinConst(k.Int64()), -1), Why: why}, {L: an.LinConst(k.Int64()).Add(ln, -1), Why: why}}
+		}
+		lo := int64(an.PosInf)
+		for _, ret := range an.NewFlow(p).OkReturns(w) {
+			if len(ret.Results) == 0 {
+				continue
+			}
+			blk := ret.Block()
+			l, _ := b.LowerBound(b.LenOf(ret.Results[0]), b.FactsAt(blk, len(blk.Instrs)-1))
+			if l < lo {
+				lo = l
+			}
+		}
+		if lo != an.PosInf && lo > 0 {
+			return lo, []string{fmt.Sprintf("writer minimum: len(result) >= %d on every successful return of %s (relational bound)", lo, w.Name())}
+		}
+	}
 	return total, []string{"writer minimum: " + strings.Join(facts, "; ")}
 }
-
 
 // discoverPairLoop: the function that iterates over the key/value pairs of a mapping being read —
 // by name if it is still called parseKeyValuePairs, otherwise the function of package data in the
